@@ -111,6 +111,38 @@ func candidateModels(model map[string]string) []map[string]string {
 		}
 	}
 	rec(0, map[string]string{})
+	// boundary grid over word lengths and signs (search for a failing input when the model's own values,
+	// which come from an abstraction of the word-length function, do not fail on the real code)
+	grid := []int{1, 2, 6, 7, 41, 100}
+	var gvals []string
+	for _, w := range grid {
+		hi := new(big.Int).Sub(Pow2(64*w), big.NewInt(1))
+		gvals = append(gvals, hi.String(), new(big.Int).Neg(hi).String())
+	}
+	var rec2 func(i int, cur map[string]string)
+	rec2 = func(i int, cur map[string]string) {
+		if len(out) > 170 {
+			return
+		}
+		if i == len(ins) {
+			m := map[string]string{}
+			for k, v := range model {
+				m[k] = v
+			}
+			for k, v := range cur {
+				m[k] = v
+			}
+			out = append(out, m)
+			return
+		}
+		for _, c := range gvals {
+			cur[ins[i].val] = c
+			rec2(i+1, cur)
+		}
+	}
+	if len(ins) <= 2 {
+		rec2(0, map[string]string{})
+	}
 	return out
 }
 
